@@ -18,12 +18,18 @@ Two places where the property text is *not* true as written, each with a proved 
 * `MomentTransf` is signed, **odd** in θ and 2π-**anti**periodic (period 4π): it is neither even nor
   2π-periodic (`momenttransf_not_even_witness`, `momenttransf_not_periodic_witness`); its absolute value is.
 
-One modelling remark: the translated `CS_KN` carries the header's `PI` as the double literal
-`3.141592653589793` (`Spec.PI_lit`), not `π`; `cs_kn_is_integral` therefore has the factor `π / PI_lit`,
-and `pi_lit_close` bounds it by `1 ± 1e-15`.
+Two modelling remarks on `CS_KN`:
+* the translated code carries the header's `PI` as the double literal `3.141592653589793` (`Spec.PI_lit`), not
+  `π`; the theorems that compare `CS_KN` with an integral therefore have the factor `π / PI_lit`, and
+  `pi_lit_close` bounds it by `1 ± 1e-15`;
+* `CS_KN` has two branches (scattering.c:237-257): for `a = E/mc² < 0.02` the Taylor polynomial of degree 11 of the
+  Klein–Nishina bracket (the closed form cancels catastrophically in doubles there: relative error `~eps/a³`), the
+  closed form from there on.  The closed-form branch *is* the solid-angle integral of `DCS_KN`
+  (`cs_kn_is_integral_exact`); the polynomial branch is within `1e-16` of it, relative
+  (`cs_kn_is_integral`, from the remainder bound `KNS.ser_close` of Lemmas/KNSeries.lean).  Both branches are
+  `≤` the Thomson total (`cs_kn_le_thomson`) and tend to it (`cs_kn_tendsto_thomson`).
 
-What ℝ cannot show: the cancellation in `CS_KN` at low energy (`a³` in a denominator) — measured by the
-driver, not proved.
+What ℝ cannot show: rounding.  The driver measures the deviation of the library from these real-number values.
 -/
 namespace Xrl
 namespace C12
@@ -137,11 +143,14 @@ theorem positive_DCSP_KN (hE : 0 < E) : 0 < valueOf (Gen.DCSP_KN T E θ φ error
 example : 0 < valueOf (Gen.DCSP_KN T 1e-6 (π / 2) 0 Slot.empty) :=
   positive_DCSP_KN T _ _ _ _ (by norm_num)
 
-/-- from `cs_kn_is_integral`: the integral of a continuous integrand that is positive on `(0, π)` -/
+/-- closed-form branch: the integral of a continuous integrand that is positive on `(0, π)`; polynomial branch:
+`4/3 − 8a/3 ≤` the polynomial (alternating, decreasing terms for `a < 0.02`) -/
 theorem positive_CS_KN (hE : 0 < E) : 0 < valueOf (Gen.CS_KN T E error) := by
   rw [value_CS_KN T E error hE]; exact csknV_pos E hE
 
 example : 0 < valueOf (Gen.CS_KN T 1e6 Slot.null) := positive_CS_KN T _ _ (by norm_num)
+
+example : 0 < valueOf (Gen.CS_KN T 1e-6 Slot.null) := positive_CS_KN T _ _ (by norm_num)
 
 theorem positive_ComptonEnergy (hE : 0 < E) : 0 < valueOf (Gen.ComptonEnergy T E θ error) := by
   rw [value_ComptonEnergy T E θ error hE]; exact comptonV_pos E θ hE
@@ -226,16 +235,38 @@ example : (2 * π)⁻¹ * ∫ φ in (0:ℝ)..(2 * π), valueOf (Gen.DCSP_KN T 17
 
 /-! ## The total Klein–Nishina cross section is the solid-angle integral of the differential one -/
 
-/-- `∫₀^π DCS_KN(E,θ) · 2π sin θ dθ = (π / PI_lit) · CS_KN(E)`: exact up to the header's 16-digit `PI` -/
+/-- the integral the property speaks of is positive -/
+theorem kn_integral_pos (hE : 0 < E) :
+    0 < ∫ θ in (0:ℝ)..π, valueOf (Gen.DCS_KN T E θ error) * (2 * π * sin θ) := by
+  simp only [fun θ => value_DCS_KN T E θ error hE, valueOf_ok]
+  exact knV_integral_pos E hE
+
+/-- **for every `E > 0`**: `(π / PI_lit) · CS_KN(E)` is within `1e-16` (relative) of
+`∫₀^π DCS_KN(E,θ) · 2π sin θ dθ`.  For `E/mc² ≥ 0.02` the difference is `0` (`cs_kn_is_integral_exact`); below,
+it is the truncation error of the degree-11 series. -/
 theorem cs_kn_is_integral (hE : 0 < E) :
+    |π / Spec.PI_lit * valueOf (Gen.CS_KN T E error)
+        - ∫ θ in (0:ℝ)..π, valueOf (Gen.DCS_KN T E θ error) * (2 * π * sin θ)|
+      ≤ 1e-16 * ∫ θ in (0:ℝ)..π, valueOf (Gen.DCS_KN T E θ error) * (2 * π * sin θ) := by
+  simp only [fun θ => value_DCS_KN T E θ error hE, value_CS_KN T E error hE, valueOf_ok]
+  exact csknV_integral_close E hE
+
+example : |π / Spec.PI_lit * valueOf (Gen.CS_KN T 1 Slot.empty)
+        - ∫ θ in (0:ℝ)..π, valueOf (Gen.DCS_KN T 1 θ Slot.empty) * (2 * π * sin θ)|
+      ≤ 1e-16 * ∫ θ in (0:ℝ)..π, valueOf (Gen.DCS_KN T 1 θ Slot.empty) * (2 * π * sin θ) :=
+  cs_kn_is_integral T _ _ (by norm_num)
+
+/-- closed-form branch: `∫₀^π DCS_KN(E,θ) · 2π sin θ dθ = (π / PI_lit) · CS_KN(E)`, exact up to the header's
+16-digit `PI` -/
+theorem cs_kn_is_integral_exact (hE : 0 < E) (ha : 0.02 ≤ E / Hdr.MEC2) :
     ∫ θ in (0:ℝ)..π, valueOf (Gen.DCS_KN T E θ error) * (2 * π * sin θ)
       = π / Spec.PI_lit * valueOf (Gen.CS_KN T E error) := by
   simp only [fun θ => value_DCS_KN T E θ error hE, value_CS_KN T E error hE, valueOf_ok]
-  exact csknV_is_integral E hE
+  exact csknV_is_integral_high E hE (by norm_num at ha ⊢; exact ha)
 
 example : ∫ θ in (0:ℝ)..π, valueOf (Gen.DCS_KN T 511 θ Slot.empty) * (2 * π * sin θ)
       = π / Spec.PI_lit * valueOf (Gen.CS_KN T 511 Slot.empty) :=
-  cs_kn_is_integral T _ _ (by norm_num)
+  cs_kn_is_integral_exact T _ _ (by norm_num) (by rw [MEC2_real]; norm_num)
 
 /-- the literal the translated code uses for `PI` is `π` to 1 part in 10¹⁵ -/
 theorem pi_lit_close : |π / (Spec.PI_lit : ℝ) - 1| < 1e-15 := KN.pi_lit_close'
@@ -243,16 +274,93 @@ theorem pi_lit_close : |π / (Spec.PI_lit : ℝ) - 1| < 1e-15 := KN.pi_lit_close
 /-- … and the 32-digit header literal differs from that double by less than `2.4e-16` -/
 theorem pi_lit_vs_hdr : |(Hdr.PI : ℝ) - Spec.PI_lit| < 2.4e-16 := KN.pi_lit_vs_hdr'
 
-/-- relative deviation of the closed form from the integral: `< 1e-15` of the integral -/
+/-- relative deviation of the returned value from the integral, *without* the factor `π / PI_lit`:
+`< 1.2e-15` of the integral (`1e-15` from the literal `PI`, `1e-16` from the series) -/
 theorem cs_kn_integral_rel_error (hE : 0 < E) :
     |(∫ θ in (0:ℝ)..π, valueOf (Gen.DCS_KN T E θ error) * (2 * π * sin θ)) - valueOf (Gen.CS_KN T E error)|
-      < 1e-15 * valueOf (Gen.CS_KN T E error) := by
-  rw [cs_kn_is_integral T E error hE]
-  have hp := positive_CS_KN T E error hE
-  have h : π / Spec.PI_lit * valueOf (Gen.CS_KN T E error) - valueOf (Gen.CS_KN T E error)
-      = (π / Spec.PI_lit - 1) * valueOf (Gen.CS_KN T E error) := by ring
-  rw [h, abs_mul, abs_of_pos hp]
-  exact mul_lt_mul_of_pos_right pi_lit_close hp
+      < 1.2e-15 * ∫ θ in (0:ℝ)..π, valueOf (Gen.DCS_KN T E θ error) * (2 * π * sin θ) := by
+  have h := cs_kn_is_integral T E error hE
+  have hv := positive_CS_KN T E error hE
+  have hI := kn_integral_pos T E error hE
+  have hq := pi_lit_close
+  generalize (∫ θ in (0:ℝ)..π, valueOf (Gen.DCS_KN T E θ error) * (2 * π * sin θ)) = I at h hI ⊢
+  generalize valueOf (Gen.CS_KN T E error) = v at h hv ⊢
+  generalize π / (Spec.PI_lit : ℝ) = q at h hq
+  rw [abs_le] at h
+  rw [abs_lt] at hq ⊢
+  have h1 : (q - 1) * v < 1e-15 * v := mul_lt_mul_of_pos_right hq.2 hv
+  have h2 : -1e-15 * v < (q - 1) * v := mul_lt_mul_of_pos_right hq.1 hv
+  obtain ⟨h3, h4⟩ := h
+  norm_num at h1 h2 h3 h4 ⊢
+  constructor <;> linarith
+
+example : |(∫ θ in (0:ℝ)..π, valueOf (Gen.DCS_KN T 5 θ Slot.empty) * (2 * π * sin θ))
+      - valueOf (Gen.CS_KN T 5 Slot.empty)|
+      < 1.2e-15 * ∫ θ in (0:ℝ)..π, valueOf (Gen.DCS_KN T 5 θ Slot.empty) * (2 * π * sin θ) :=
+  cs_kn_integral_rel_error T _ _ (by norm_num)
+
+/-! ## … never exceeds the Thomson total and tends to it as `E → 0⁺` -/
+
+/-- the Thomson total cross section: `∫₀^π DCS_Thoms(θ) · 2π sin θ dθ = 8π r²/3` -/
+theorem thomson_total :
+    ∫ θ in (0:ℝ)..π, valueOf (Gen.DCS_Thoms T θ error) * (2 * π * sin θ) = 8 * π / 3 * Hdr.RE2 := by
+  simp only [value_DCS_Thoms, valueOf_ok]
+  exact thomsV_integral
+
+/-- the integrated differential Klein–Nishina cross section never exceeds the Thomson total -/
+theorem kn_integral_le_thomson (hE : 0 < E) :
+    ∫ θ in (0:ℝ)..π, valueOf (Gen.DCS_KN T E θ error) * (2 * π * sin θ)
+      ≤ ∫ θ in (0:ℝ)..π, valueOf (Gen.DCS_Thoms T θ error) * (2 * π * sin θ) := by
+  simp only [fun θ => value_DCS_KN T E θ error hE, value_DCS_Thoms, valueOf_ok]
+  exact knV_integral_le_thomson E hE
+
+/-- **`CS_KN` never exceeds the Thomson total** — no tolerance: the closed-form branch because it is the
+integral of `DCS_KN ≤ DCS_Thoms`, the polynomial branch because the polynomial is `≤ 4/3` for `0 ≤ a ≤ 0.02`.
+With the real `π` (first clause, against `∫ DCS_Thoms`) and in the code's own constant (second clause). -/
+theorem cs_kn_le_thomson (hE : 0 < E) :
+    π / Spec.PI_lit * valueOf (Gen.CS_KN T E error)
+        ≤ ∫ θ in (0:ℝ)..π, valueOf (Gen.DCS_Thoms T θ error) * (2 * π * sin θ) ∧
+    valueOf (Gen.CS_KN T E error) ≤ 2 * Spec.PI_lit * Hdr.RE2 * (4 / 3) := by
+  simp only [value_CS_KN T E error hE, value_DCS_Thoms, valueOf_ok]
+  exact ⟨csknV_le_thomson_integral E hE, csknV_le_thomson E hE⟩
+
+example : valueOf (Gen.CS_KN T 1e-3 Slot.empty) ≤ 2 * Spec.PI_lit * Hdr.RE2 * (4 / 3) :=
+  (cs_kn_le_thomson T _ _ (by norm_num)).2
+
+example : valueOf (Gen.CS_KN T 100 Slot.empty) ≤ 2 * Spec.PI_lit * Hdr.RE2 * (4 / 3) :=
+  (cs_kn_le_thomson T _ _ (by norm_num)).2
+
+/-- low-energy limit, from the right: `CS_KN(E) → 2 · PI_lit · r² · 4/3`, i.e. `(π / PI_lit) · CS_KN(E)` tends to
+the Thomson total `∫ DCS_Thoms = 8π r²/3` -/
+theorem cs_kn_tendsto_thomson :
+    Filter.Tendsto (fun E => π / Spec.PI_lit * valueOf (Gen.CS_KN T E error)) (𝓝[>] 0)
+      (𝓝 (∫ θ in (0:ℝ)..π, valueOf (Gen.DCS_Thoms T θ error) * (2 * π * sin θ))) ∧
+    Filter.Tendsto (fun E => valueOf (Gen.CS_KN T E error)) (𝓝[>] 0)
+      (𝓝 (2 * Spec.PI_lit * Hdr.RE2 * (4 / 3))) := by
+  have h2 : Filter.Tendsto (fun E => valueOf (Gen.CS_KN T E error)) (𝓝[>] 0)
+      (𝓝 (2 * Spec.PI_lit * Hdr.RE2 * (4 / 3))) := by
+    refine csknV_tendsto.congr' ?_
+    filter_upwards [self_mem_nhdsWithin] with E hE
+    rw [value_CS_KN T E error hE, valueOf_ok]
+  refine ⟨?_, h2⟩
+  have h1 := h2.const_mul (π / Spec.PI_lit)
+  rw [thomson_total]
+  have e : π / Spec.PI_lit * (2 * Spec.PI_lit * Hdr.RE2 * (4 / 3)) = 8 * π / 3 * Hdr.RE2 := by
+    have := PI_lit_pos.ne'
+    field_simp; ring
+  rw [e] at h1
+  exact h1
+
+/-- … and so does the integral of the differential form itself, independently of `CS_KN`: it is `2π r² ·` the
+closed-form bracket, which differs from its Taylor polynomial by at most `29009 a¹² + 278528 a¹⁵`
+(`KNS.ser_sub_brk_le`) -/
+theorem kn_integral_tendsto_thomson :
+    Filter.Tendsto (fun E => ∫ θ in (0:ℝ)..π, valueOf (Gen.DCS_KN T E θ error) * (2 * π * sin θ)) (𝓝[>] 0)
+      (𝓝 (∫ θ in (0:ℝ)..π, valueOf (Gen.DCS_Thoms T θ error) * (2 * π * sin θ))) := by
+  rw [thomson_total]
+  refine knV_integral_tendsto.congr' ?_
+  filter_upwards [self_mem_nhdsWithin] with E hE
+  simp only [fun θ => value_DCS_KN T E θ error hE, valueOf_ok]
 
 /-! ## Compton energy -/
 
